@@ -1159,10 +1159,20 @@ pub fn c12(property: &str, seed: u64, index: u64) -> Plan {
             // player makes several frames confirm (and go out to the spectator) within one call
             let mut p = s1(property, "c12-spectator-cut-at-cap", seed, &S1Opts { max_peers: 2, force_spectators: true, frames_lo: 500, frames_hi: 1200, long_run_pct: 0, ..Default::default() });
             let n = p.nodes.len();
+            let mut short_notify = false;
             for i in 0..n {
                 if let NodeKind::Spectator { host, .. } = p.nodes[i].kind {
                     let at = c.range(&[30, i as u64], ms(300), p.horizon_us / 2);
-                    if c.chance(&[31, i as u64], 500_000) {
+                    if c.chance(&[32, i as u64], 350_000) {
+                        // ... or the way back heals just as the cap is reached: what was held up
+                        // arrives within a frame or two of the call that gave up on the spectator,
+                        // on an endpoint that has been reported interrupted (short notify delay)
+                        let per = p.nodes[host].tick.period_us;
+                        let frames = 128 + c.range(&[33, i as u64], 0, 12) - 4;
+                        let end = at + frames * per + c.range(&[34, i as u64], 0, per);
+                        p.windows.push(Window { from: i, to: host, start_us: at, end_us: end, kinds: ALL_KINDS, action: WinAction::Drop });
+                        short_notify = true;
+                    } else if c.chance(&[31, i as u64], 500_000) {
                         p.nodes[i].tick.stop_us = Some(at);
                     } else {
                         // it keeps running but nothing it sends gets through any more
@@ -1171,7 +1181,7 @@ pub fn c12(property: &str, seed: u64, index: u64) -> Plan {
                 }
             }
             p.cfg.timeout_ms = 60_000;
-            p.cfg.notify_ms = 20_000;
+            p.cfg.notify_ms = if short_notify { c.range(&[35], 300, 1500) } else { 20_000 };
             p.oracle.liveness = None;
             p
         }
